@@ -126,6 +126,8 @@ class PoolRun(object):
                 self.pool.start()
             elif name == "stop":
                 self.pool.stop()
+            elif name == "clear":
+                self.pool.clear()
             elif name == "enq":
                 tid = "t%d.%d" % (ti, oi)
                 task = self.make_task(tid, op[1], op[2], op[3] if len(op) > 3 else None)
